@@ -417,7 +417,7 @@ def run(pid, tier, seed):
         "impl_model_agreement": {"attempts": n_attempts_judged, "drift": dict(drift)},
         "negative_controls": nc,
         "design_model_check": {k: mc.get(k) for k in ("states", "transitions", "depth", "wall_s", "ok",
-                                                     "witness", "actions")},
+                                                     "witness", "actions") if mc.get(k) is not None},
         "design_negative_controls": {
             "no_cleanup_of_partial_directory": neg1.get("violated"),
             "swallowed_zip_failures": neg2.get("violated")},
@@ -429,7 +429,8 @@ def run(pid, tier, seed):
             "states", "transitions", "depth", "wall_s", "ok")}
     res["coverage"] = cov
     res["summary"] = "traces=%d (fault-enum %d, model-enumerated %d) attempts=%d mc_states=%d neg=%d/%d drift=%d wall=%.0fs" % (
-        len(traces), n_cs, len(mtraces), evaluations, mc.get("states") or 0, nc["rejected"],
+        len(traces), n_cs, len(mtraces), evaluations,
+        (mc.get("states") or 0) + ((mc_big.get("states") or 0) if mc_big else 0), nc["rejected"],
         len(PREDICATES), sum(drift.values()), time.time() - t_start)
     if fail:
         res["machinery_failure"] = "; ".join(fail)
